@@ -69,7 +69,7 @@ func VerifH_C09_L1_adoption() {
 // view, no second task is created for the attempt and nothing recorded is lost.
 func VerifH_C09_L2_crash() {
 	p := verifSetupPass(verifPassOpts{
-		job:           verifJobOpts{maxRefs: 2, parallel: 0, started: 1, maxAttemptsHi: 3, inv8: true, concreteTimes: true, oneResult: true, preMarked: true},
+		job:           verifJobOpts{maxRefs: 2, parallel: 0, started: 1, allowKill: true, maxAttemptsHi: 3, inv8: true, concreteTimes: true, oneResult: true, preMarked: true},
 		cacheMayLag:   true, taskMayFinish: true, createOutcomes: 1,
 	})
 	j := p.j
